@@ -19,7 +19,7 @@ pub const ENTRY: Entry = Entry {
            start<=end, end inside the extent under the current MV) RASET(same) RAMWR pixels(whole pixels, <= window area for DrawTarget \
            calls, the controller's write pointer never wraps). Enumerated: the union of the C01 (in-bounds, every entry point, all \
            transports incl. byte-level SPI and strobe-level parallel decoding), C02 (out-of-bounds lattice), C03 (capacity-crossing \
-           symbol words) and C04 (clipped fill_contiguous) alphabets, plus chained programs with orientation changes on one display. \
+           symbol words) and C04 (clipped fill_contiguous) alphabets, plus chained programs with orientation changes on one display, and the drawing alphabet after a set_orientation whose k-th low-level operation failed (every k). \
            Non-trivial = the call emitted at least one burst.",
     assumptions: &[
         "reference controller model decides extents under MV and pointer wrap",
@@ -47,6 +47,57 @@ fn check(ctx: &Ctx, acc: &mut Acc, cfg: &Cfg, hist: &[Op]) {
             acc.count("bursts", run.rig.ctl.n_ramwr);
         }
         Err((f, _)) => acc.violation(violation(ctx, cfg, hist, "framing", &f)),
+    }
+}
+
+/// a set_orientation whose k-th low-level operation fails, then the drawing alphabet: every burst is still framed by a
+/// window inside the framebuffer as the controller sees it (whatever the driver now believes about its orientation)
+fn after_failed_orientation(cfg: &Cfg, o2: u8, k: u64, ops: &[Op]) -> (bool, Option<(String, String)>) {
+    let mut rig = Rig::new(cfg);
+    rig.ctl.keep_cmds = true;
+    if !rig.init.is_ok() {
+        return (false, None);
+    }
+    let at = rig.ops() + k;
+    let fired0 = rig.bd.borrow().failed_ops.len();
+    rig.set_faults(&[crate::env::Fault { at, mode: crate::env::FaultMode::Unchanged }]);
+    let _ = rig.apply(&Op::SetOrientation(o2));
+    rig.set_faults(&[]);
+    if rig.bd.borrow().failed_ops.len() == fired0 {
+        return (false, None);
+    }
+    rig.ctl.viols.clear();
+    for (i, op) in ops.iter().enumerate() {
+        let cmd0 = rig.ctl.cmds.len();
+        let out = rig.apply(op);
+        let mk = |kind: &str, m: String| Some((format!("{}/after-failed-set_orientation/{kind}", op.name()), format!("set_orientation({o2}) failed at its low-level operation {k}; then drawing operation #{i} {op:?}: {m}")));
+        if let Outcome::Panic(m) | Outcome::NonTermination(m) = &out {
+            return (true, mk("panic", m.clone()));
+        }
+        if let Some(v) = rig.ctl.viols.first() {
+            return (true, mk(viol_kind(v), format!("controller protocol violation: {v:?}")));
+        }
+        if let Some(m) = framing_check(&rig, cmd0, !matches!(op, Op::SetPixels { .. })) {
+            return (true, mk("framing", m));
+        }
+    }
+    (true, None)
+}
+
+pub fn replay_fault(case: &serde_json::Value) -> i32 {
+    let cfg: Cfg = serde_json::from_value(case["cfg"].clone()).unwrap();
+    let ops: Vec<Op> = serde_json::from_value(case["history"].clone()).unwrap();
+    let (o2, k) = (case["o2"].as_u64().unwrap() as u8, case["k"].as_u64().unwrap());
+    println!("{cfg:?}: set_orientation({o2}) with low-level operation {k} failing, then {} drawing operations", ops.len());
+    match after_failed_orientation(&cfg, o2, k, &ops).1 {
+        Some((s, m)) => {
+            println!("REPLAY: {s} -- {m}");
+            1
+        }
+        None => {
+            println!("REPLAY: passes");
+            0
+        }
     }
 }
 
@@ -90,6 +141,23 @@ fn run(ctx: &Ctx) -> Part {
             chain.extend(c01::alphabet(lw2, lh2, false));
             check(ctx, &mut acc, cfg, &chain);
             acc.count("chained_programs_with_orientation_change", 1);
+            // failed orientation change (every fault position), then the drawing alphabet of the old geometry
+            if cfg.fb() == (4, 3) || cfg.fb() == (3, 2) {
+                let ops = c01::alphabet(lw, lh, false);
+                for k in 0..64u64 {
+                    let (fired, f) = after_failed_orientation(cfg, o2, k, &ops);
+                    if !fired {
+                        break;
+                    }
+                    acc.evaluations += 1;
+                    acc.nontrivial += 1;
+                    acc.transitions += 1 + ops.len() as u64;
+                    acc.count("programs_after_failed_orientation_change", 1);
+                    if let Some((sig, msg)) = f {
+                        acc.violation(Violation { prop: ctx.prop.clone(), sig, msg, case: json!({"kind": "c08-fault", "variant": ctx.variant, "cfg": cfg, "o2": o2, "k": k, "history": ops}) });
+                    }
+                }
+            }
             acc.states += 2;
             acc
         })
@@ -172,5 +240,6 @@ fn run(ctx: &Ctx) -> Part {
     let mut part = Part::new(ctx, acc, bounds, true, t0.elapsed().as_secs_f64());
     part.require("bursts", 1000);
     part.require("chained_programs_with_orientation_change", 1);
+    part.require("programs_after_failed_orientation_change", 100);
     part
 }
